@@ -18,7 +18,7 @@ BINOPS = list(PREC)
 UNOPS = ["!", "-", "~"]
 P_ASSIGN, P_UNARY, P_POSTFIX = 0, 10, 11
 
-PRELUDE = "let a = 7; let b = 3; let c = 0; let d = 0; let arr = [10, 20, 30, 40]; fn f(x) { x * 2 + 1 }\nlet __o = [];\n"
+PRELUDE = "let a = 7; let b = 3; let c = 0; let d = 0; let arr = [10, 20, 30, 40]; let tt = true; fn f(x) { x * 2 + 1 }\nlet __o = [];\n"
 
 
 def Leaf(v):
@@ -246,11 +246,43 @@ def run(chk):
     for _ in range(3000 if quick else 120000):
         trees.append(rand_tree(rng.randint(2, 4)))
 
+    # long runs of prefix operators (beyond any small unrolling bound) and long left spines of binary operators with a
+    # relational operator inside
+    for L in (31, 32, 33, 34, 40, 45, 60):
+        for pat in ("-~", "~-", "--~", "~~-", "-"):
+            n = Leaf(5)
+            for k in range(L):
+                n = ("un", pat[k % len(pat)], n)
+            trees.append(n)
+            trees.append(("bin", "+", n, Leaf(1)))
+        for inner in ("<", "<=", ">", ">=", "=="):
+            n = ("bin", inner, Leaf(1), Leaf(2))
+            for k in range(L):
+                n = ("bin", "==" if k % 3 else "!=", n, Leaf("tt"))
+            trees.append(n)
+            m = ("bin", inner, Leaf(2), Leaf(1))
+            for k in range(L):
+                m = ("bin", rng.choice(["==", "!=", "&&", "||"]), m, Leaf("tt"))
+            trees.append(m)
+        n = Leaf(1)
+        for k in range(L):
+            n = ("bin", "+-*"[k % 3], n, Leaf(k % 5 + 1))
+        trees.append(("bin", "<", n, Leaf(1000)))
     # the same trees are also written inside other syntactic contexts (each context yields the value of the expression)
     CONTEXTS = ["%s", "match 1 { 1 => %s, _ => 0 }", "match 2 { 1 => 0, _ => { %s } }", "if true { %s } else { 0 }",
-                "[0, %s][1]", "(fn() { %s })()", "(map {1: %s})[1]", "[%s, 0][0]", "if false { 0 } else if true { %s }"]
+                "[0, %s][1]", "(fn() { %s })()", "(map {1: %s})[1]", "[%s, 0][0]", "if false { 0 } else if true { %s }",
+                "match 1 { 1 | 2 => %s, _ => 0 }", "match 1 { 3 | 4 => 0, 1 | 2 => %s }", "[match 5 { 1 | 2 => 0 }, %s][1]", "[match 5 { 1 => 0, _ => 1 }, %s][1]",
+                "[match 'q' { 'a' | 'b' | 'c' => 0 }, match 1 { 7 | 8 => 0, 1 | 9 => %s }][1]"]
+    NEW_CTX = range(9, 14)
     base = list(trees)
     ctx_of = [0] * len(base)
+    # every operator pair, in both nestings, inside each of the contexts that follow / sit in a match with alternation
+    for cx in NEW_CTX:
+        for o1, o2 in itertools.product(BINOPS, BINOPS):
+            x, y, z = Leaf(2), Leaf(3), Leaf(5)
+            for t_ in (("bin", o2, ("bin", o1, x, y), z), ("bin", o1, x, ("bin", o2, y, z))):
+                trees.append(t_)
+                ctx_of.append(cx)
     n_ctx = len(base) if not quick else min(len(base), 2500)
     for k in range(n_ctx):
         t = base[k] if not quick else base[rng.randrange(len(base))]
@@ -310,7 +342,7 @@ def run(chk):
                            "eval_minimal": rm.get("globals") or rm.get("rt"), "eval_full": rf.get("globals") or rf.get("rt")})
             continue
         # (3) direct evaluation of the tree
-        env = {"a": 7, "b": 3, "c": 0, "d": 0, "arr": Arr([10, 20, 30, 40])}
+        env = {"a": 7, "b": 3, "c": 0, "d": 0, "arr": Arr([10, 20, 30, 40]), "tt": True}
         try:
             v = ev(t, env)
             exp = ("ok", ("a", (canon(v), canon(env["c"]), canon(env["d"]))))
